@@ -893,7 +893,19 @@ async fn server_event_patch_case(case: &Value) -> Value {
         sos_core::events::patch::CheckedPatch::Success(_) => "success".to_string(),
         sos_core::events::patch::CheckedPatch::Conflict { .. } => "conflict".to_string(),
     };
-    let result = if case["direct"].as_bool() == Some(true) {
+    let result = if case["force"].as_bool() == Some(true) {
+        use sos_sync::ForceMerge;
+        let mut t = sos_core::commit::CommitTree::new();
+        let mut l: Vec<[u8; 32]> = case["proof_of"].as_array().unwrap().iter().map(|b| commit_of_byte(b.as_u64().unwrap()).0).collect();
+        t.append(&mut l);
+        t.commit();
+        let diff = sos_core::events::patch::FolderDiff { last_commit: None, patch: Patch::new(req.patch), checkpoint: t.head().unwrap() };
+        let mut outcome = sos_sync::MergeOutcome::default();
+        match storage.force_merge_folder(&id, diff, &mut outcome).await {
+            Ok(_) => "ok".to_string(),
+            Err(e) => format!("err: {}", e),
+        }
+    } else if case["direct"].as_bool() == Some(true) {
         use sos_sync::Merge;
         let diff = sos_core::events::patch::FolderDiff { last_commit: None, patch: Patch::new(req.patch), checkpoint: req.proof };
         let mut outcome = sos_sync::MergeOutcome::default();
